@@ -507,6 +507,13 @@ def table_for(j_norm):
     return out
 
 
+def table_entry(ty):
+    from aiohomekit.model.characteristics.data import characteristics
+    from ref.c20_uuid import ref_normalize
+    n = ref_normalize(ty) if isinstance(ty, str) else None
+    return characteristics.get(n, {}) if n else {}
+
+
 def normalise_types(j):
     """Apply the reference UUID normalisation to every service / characteristic type ('!' marks a rejected value)."""
     from ref.c20_uuid import ref_normalize
@@ -574,6 +581,9 @@ def gen_char(r, iid, wf=True):
         perms.insert(0, "pr")
     c = {"type": ty, "iid": iid, "perms": perms}
     fmt = r.choice(FORMATS)
+    tab = table_entry(ty)
+    if tab.get("format") and r.random() < 0.85:
+        fmt = tab["format"]                       # a known type mostly comes with its own format
     if r.random() < 0.9:
         c["format"] = fmt
     elif r.random() < 0.3:
@@ -628,7 +638,7 @@ def gen_char(r, iid, wf=True):
             c["valid-values"] = r.choice([[2, 3], [None, 1]])
             c.pop("value", None)
         elif m < 0.9:
-            c["minValue"], c["maxValue"] = r.choice([(5, 2), (0.5, 0.25), (1, "x"), ("a", "b")])
+            c["minValue"], c["maxValue"] = r.choice([(5, 2), (0.5, 0.25), (1, "x"), (2.5, 1)])
             c.pop("value", None)
             c["perms"] = ["pr"]
     items = list(c.items())
@@ -703,8 +713,11 @@ def wf_map(j):
                               "disconnected_events", "format"):
                         if k in c and c[k] is None:
                             return False
-                    if c.get("format") == "bool" and (c.get("minValue") or c.get("maxValue") or c.get("valid-values")):
-                        return False
+                    tab = table_entry(c["type"])
+                    if c.get("format", tab.get("format")) == "bool" and (
+                            c.get("minValue", tab.get("min_value")) or c.get("maxValue", tab.get("max_value"))
+                            or c.get("valid-values")):
+                        return False              # a bool whose initial value would be a number
                     for k in ("minValue", "maxValue"):
                         if k in c and (isinstance(c[k], bool) or not isinstance(c[k], (int, float))):
                             return False
@@ -810,6 +823,23 @@ def stream_emap(ctx, drv, cov, viols, r):
                                    kind=kind, entity_map=j, broken="correspondence Model/PersistRec.v <-> model/__init__.py"))
             continue
         md1, mser, md2 = model[0][1], model[1][1], model[2]
+        applicable = len(model) > 3 and model[3] == ("ok", True)
+        stats["theorem_applicable"] = stats.get("theorem_applicable", 0) + applicable
+        if wf and not applicable:
+            stats["oracle_domain_outside_theorem_domain"] = stats.get("oracle_domain_outside_theorem_domain", 0) + 1
+            stats.setdefault("outside_examples", [])
+            if len(stats["outside_examples"]) < 3:
+                stats["outside_examples"].append(j)
+        if applicable and not wf:
+            stats["theorem_domain_outside_oracle_domain"] = stats.get("theorem_domain_outside_oracle_domain", 0) + 1
+            # the theorem applies to the objects although the JSON is outside wf_map: the listed fields must survive
+            if impl2[0] != "ok" or listed_view(d1) != listed_view(d2):
+                key = "entity_roundtrip:theorem-domain"
+                if key not in seen:
+                    seen.add(key)
+                    viols.append(violation(key, "objects satisfy the hypotheses of entity_roundtrip but the listed fields "
+                                           "change across serialize -> from_list", True, kind=kind, entity_map=j))
+                continue
         if canon(md1) != canon(d1):
             viols.append(violation("emap:model-mismatch:from_list", "objects built by from_list differ from the model's", False,
                                    kind=kind, entity_map=j, impl=d1, model=md1,
@@ -845,7 +875,7 @@ def stream_entry(ctx, drv, cov, viols, root, r):
         if i % 5 != 4:
             entry["config_num"] = r.choice([0, 1, 2, 65535, r.randrange(1, 1000)])
         if i % 3 != 2:
-            entry["broadcast_key"] = r.choice([None, hexs(r, 32), hexs(r, 32).upper(), hexs(r, 1)])
+            entry["broadcast_key"] = r.choice([None, hexs(r, 32), hexs(r, 32).upper()])     # BLE keys are 256 bit
         if i % 4 != 3:
             entry["state_num"] = r.choice([None, 1, 2, 65535, r.randrange(1, 65536)])
         with open(path, "w", encoding="utf-8") as f:
